@@ -103,15 +103,30 @@ def resolve_locals(ctx, t, env, depth=0):
 
 
 def _hasedge_terms(ctx, x, y):
-    """terms that denote hasEdge(x,y) of this graph (any orientation for the undirected family)"""
+    """(two-argument terms, three-argument terms) that denote hasEdge(x,y) / hasEdge(x,y,label) of this graph
+    (any orientation for the undirected family)"""
+    two, three = [], []
+    for n in ctx.fn.nodes:
+        if n['k'] == 'CXXMemberCallExpr' and 'callee' in n:
+            cd = ctx.fn.unit.decl(n['callee'])
+            if cd['name'] == 'hasEdge' and len(n.get('args', [])) in (2, 3):
+                t = ctx.tt.t(n['i'])
+                a = t[3]
+                if (a[0] == x and a[1] == y) or (ctx.undirected and a[0] == y and a[1] == x):
+                    (two if len(a) == 2 else three).append(t)
+    return two, three
+
+
+def _label_presence_terms(ctx, x, y):
+    """terms that test presence of the key of (x,y) in the label store: edgeLabels.count(k) [== 0]"""
     out = []
     for n in ctx.fn.nodes:
         if n['k'] == 'CXXMemberCallExpr' and 'callee' in n:
             cd = ctx.fn.unit.decl(n['callee'])
-            if cd['name'] == 'hasEdge' and len(n.get('args', [])) == 2:
+            if cd['name'] in ('count', 'contains') and ctx.ev.role(ctx.tt.t(n.get('obj', -1))) == 'L':
                 t = ctx.tt.t(n['i'])
-                a = t[3]
-                if (a[0] == x and a[1] == y) or (ctx.undirected and a[0] == y and a[1] == x):
+                k = ctx.key_of(t[3][0], n['i'])
+                if k is not None and ((k.a == x and k.b == y) or (k.a == y and k.b == x)):
                     out.append(t)
     return out
 
@@ -119,7 +134,9 @@ def _hasedge_terms(ctx, x, y):
 # ------------------------------------------------------------------------------------------------
 def rule_insertion_guard(m):
     res = RuleResult('F-INS', 'an edge is inserted exactly when force is set or hasEdge(x,y) of the same pair is false '
-                              '(and, in the multigraphs, the multiplicity is not 0); force bypasses nothing else')
+                              '(and, in the multigraphs, the multiplicity is not 0), whatever the label and whatever the '
+                              'label store holds; a forced insertion is called only where the caller\'s own force flag or the '
+                              'absence of that very pair is established')
     for f in m.fns:
         if f.record not in GRAPH_CLASSES or f.is_const or f.is_ctor or f.is_lambda:
             continue
@@ -127,41 +144,94 @@ def rule_insertion_guard(m):
         targets = []     # (node, x, y, what)
         for e in ctx.ev.of_kind('A.push'):
             targets.append((e.node, e.args[0], e.args[1], 'push'))
-        # base-class insertion called with force=true from a multigraph
+        flags = [('var', p) for ix, p in enumerate(f.params) if f.cptypes[ix] == 'bool']
+        # insertions called with a literal force=true on this object
         for nid, g in m.callees(f):
             n = f.nodes[nid]
-            if n['k'] == 'CXXMemberCallExpr' and g.record in (LDG, LUG) and g.name == 'addEdge' and \
-                    f.record in TOTAL_CLASSES and ctx.tt.t(n.get('obj', -1)) == ('this',):
+            if n['k'] == 'CXXMemberCallExpr' and g.record in GRAPH_CLASSES and g.name in ('addEdge', 'addMultiedge') and \
+                    ctx.tt.t(n.get('obj', -1)) == ('this',):
                 a = [ctx.tt.t(x) for x in n['args']]
-                if len(a) == 4 and a[3] == ('bool', True):
-                    targets.append((nid, a[0], a[1], 'forced base insertion'))
+                if len(a) >= 3 and a[-1] == ('bool', True) and g.cptypes and g.cptypes[-1] == 'bool':
+                    targets.append((nid, a[0], a[1], 'forced insertion through %s' % g.name))
+        # insertions called with a force flag that the function has re-derived (force = force || ...)
+        for nid, g in m.callees(f):
+            n = f.nodes[nid]
+            if n['k'] == 'CXXMemberCallExpr' and g.record in GRAPH_CLASSES and g.name in ('addEdge', 'addMultiedge') and \
+                    ctx.tt.t(n.get('obj', -1)) == ('this',) and g.cptypes and g.cptypes[-1] == 'bool' and len(n['args']) == len(g.cptypes):
+                a = [ctx.tt.t(x) for x in n['args']]
+                fl = a[-1]
+                if fl[0] == 'var' and fl in flags:
+                    redefs = [d for d in var_defs(f, fl[1]) if d[1] >= 0]
+                    if not redefs:
+                        continue
+                    res.sites += 1
+                    if len(redefs) != 1 or not f.node_dominates(redefs[0][0], nid):
+                        res.broken('F-INS: the force flag passed on in %s at %s is re-derived in a way the rule cannot follow'
+                                   % (f.display(), f.nloc(nid)))
+                        continue
+                    eff = ctx.tt.t(redefs[0][1])
+                    hterms = sorted({st for st in subterms(eff) if st[0] == 'mcall' and st[1].endswith('::hasEdge') and len(st[3]) == 2},
+                                    key=repr)
+                    x, y = a[0], a[1]
+
+                    def same_pair(t):
+                        return (t[3][0] == x and t[3][1] == y) or (ctx.undirected and t[3][0] == y and t[3][1] == x)
+                    bad = None
+                    for vals in itertools.product((True, False), repeat=len(hterms) + 2):
+                        force0, own = vals[0], vals[1]
+                        env = {fl: force0}
+                        for ht, v in zip(hterms, vals[2:]):
+                            env[ht] = own if same_pair(ht) else v
+                        e = eval_order(eff, env)
+                        if e is None:
+                            bad = 'undecidable'
+                            break
+                        if e and not (force0 or not own):
+                            bad = 'the flag becomes true although the caller did not force and the pair (%s,%s) is present' % (
+                                show(x, f.unit), show(y, f.unit))
+                            break
+                    if bad == 'undecidable':
+                        res.broken('F-INS: re-derived force flag in %s cannot be evaluated' % f.display())
+                    elif bad:
+                        res.fail(Finding('F-INS', f.display(), 'derived force flag for (%s,%s)' % (show(x, f.unit), show(y, f.unit)),
+                                         f.nloc(nid), 'the insertion of (%s,%s) is called with a force flag derived from `%s`, which '
+                                         'says nothing about that pair: %s, so an existing edge is duplicated'
+                                         % (show(x, f.unit), show(y, f.unit), f.expr_text(redefs[0][1])[:80], bad)))
+                    else:
+                        res.ok(dict(function=f.display(), call=ctx.desc(nid), derived_flag=f.expr_text(redefs[0][1])[:60]), fn=f.display())
         if not targets:
             continue
-        # one representative per insertion group
         seen_pairs = set()
         for nid, x, y, what in targets:
-            key = frozenset([x, y])
-            # the unconditional push of an undirected group is the representative
+            key = (frozenset([x, y]), what.startswith('forced'))
             if key in seen_pairs:
                 continue
-            group = [t for t in targets if frozenset([t[1], t[2]]) == key]
+            group = [t for t in targets if (frozenset([t[1], t[2]]), t[3].startswith('forced')) == key]
             rep = min(group, key=lambda t: len(ctx.region(t[0])))
             seen_pairs.add(key)
             nid, x, y, what = rep
             res.sites += 1
-            hes = _hasedge_terms(ctx, x, y)
-            flags = [('var', p) for ix, p in enumerate(f.params) if f.cptypes[ix] == 'bool']
+            two, three = _hasedge_terms(ctx, x, y)
+            pres = _label_presence_terms(ctx, x, y)
             mult = [('var', p) for ix, p in enumerate(f.params)
                     if f.ptypes[ix] in ('BaseGraph::EdgeMultiplicity', 'EdgeMultiplicity')]
-            if not hes or len(flags) != 1:
+            if (not two and not three and not pres) or len(flags) > 1:
                 res.broken('F-INS: insertion in %s at %s is not guarded by a recognisable `force || !hasEdge(x,y)` test '
                            'of the inserted pair' % (f.display(), f.nloc(nid)))
                 continue
             bad = None
-            for force, has, mz in itertools.product((True, False), (True, False), (True, False) if mult else (False,)):
-                env = {flags[0]: force, x: 0, y: 1}
-                for h in hes:
+            for force, has, mz, labeq, present in itertools.product(
+                    (True, False) if flags else (False,), (True, False), (True, False) if mult else (False,),
+                    (True, False) if three else (True,), (True, False) if pres else (True,)):
+                env = {x: 0, y: 1}
+                if flags:
+                    env[flags[0]] = force
+                for h in two:
                     env[h] = has
+                for h in three:
+                    env[h] = has and labeq
+                for h in pres:
+                    env[h] = 1 if present else 0
                 for mt in mult:
                     env[mt] = 0 if mz else 3
                 got = path_eval(ctx, nid, env)
@@ -170,18 +240,21 @@ def rule_insertion_guard(m):
                     bad = 'undecidable'
                     break
                 if got != want:
-                    bad = 'force=%s, edge %s%s: insertion %s but should %s' % (
+                    bad = 'force=%s, edge %s%s%s%s: insertion %s but should %s' % (
                         force, 'present' if has else 'absent', ', multiplicity 0' if mz else '',
+                        ' with a different label' if (three and has and not labeq) else '',
+                        (', label entry %s' % ('present' if present else 'absent')) if pres else '',
                         'happens' if got else 'does not happen', 'happen' if want else 'not happen')
                     break
             if bad == 'undecidable':
                 res.broken('F-INS: the guard of the insertion in %s cannot be evaluated' % f.display())
             elif bad:
                 res.fail(Finding('F-INS', f.display(), 'insertion guard of (%s,%s)' % (show(x, f.unit), show(y, f.unit)),
-                                 f.nloc(nid), 'the insertion is not executed exactly when `force || !hasEdge(x,y)`: ' + bad))
+                                 f.nloc(nid), 'the %s is not executed exactly when `force || !hasEdge(x,y)` of the inserted '
+                                 'pair: %s' % (what, bad)))
             else:
-                res.ok(dict(function=f.display(), insertion=ctx.desc(nid), guard='force || !hasEdge(%s,%s)' % (
-                    show(x, f.unit), show(y, f.unit)), cases=8 if mult else 4) if len(res.samples) < 8 else None, fn=f.display())
+                res.ok(dict(function=f.display(), insertion=ctx.desc(nid), kind=what, guard='force || !hasEdge(%s,%s)' % (
+                    show(x, f.unit), show(y, f.unit))) if len(res.samples) < 8 else None, fn=f.display())
     res.require_sites(8, 'insertion sites')
     return res
 
@@ -237,22 +310,26 @@ def rule_label_writes(m):
         writes = PairEngine.label_sets(pe, ctx)
         flags = [('var', p) for ix, p in enumerate(f.params) if f.cptypes[ix] == 'bool']
         x, y = ('var', f.params[0]), ('var', f.params[1])
-        hes = _hasedge_terms(ctx, x, y)
+        hes, hes3 = _hasedge_terms(ctx, x, y)
+        pres = _label_presence_terms(ctx, x, y)
         if len(writes) != 1 or len(flags) != 1 or not hes:
             res.broken('F-LSET: setEdgeLabel of %s is not in the recognised shape' % f.display())
             continue
         bad = None
-        for force, has in itertools.product((True, False), (True, False)):
+        for force, has, present in itertools.product((True, False), (True, False), (True, False) if pres else (True,)):
             env = {flags[0]: force}
             for h in hes:
                 env[h] = has
+            for h in pres:
+                env[h] = 1 if present else 0
             got = path_eval(ctx, writes[0]['node'], env)
             want = force or has
             if got is None:
                 bad = 'undecidable'
             elif got != want:
-                bad = 'force=%s, edge %s: label %s' % (force, 'present' if has else 'absent',
-                                                      'written' if got else 'not written')
+                bad = 'force=%s, edge %s%s: label %s' % (force, 'present' if has else 'absent',
+                                                        (', label entry %s' % ('present' if present else 'absent')) if pres else '',
+                                                        'written' if got else 'not written (no exception)')
         k = writes[0]['key']
         if bad is None and not (k is not None and k.a == x and k.b == y):
             bad = 'the key written is not the pair named by the arguments'
@@ -829,4 +906,341 @@ def rule_observers(m):
                                      'observer does not use the edge endpoints in their contractual roles (expected %s)'
                                      % (fact,)))
     res.require_sites(30, 'observer facts')
+    return res
+
+
+# ------------------------------------------------------------------------------------------------
+def _base_region_ok(ctx, nid, allowed=None):
+    """the statement executes on every path that gets past the argument validation: its control region is empty, or
+    holds only dependences whose condition is in `allowed` (callable on (term, polarity)).  Dependences on branches
+    inside the loop the element heads (its own back edge) are not conditions on entering the loop."""
+    f = ctx.fn
+    pos = f.cfg_pos(nid)
+    for dep in ctx.region(nid):
+        if pos is not None and f.block_dominates(pos[0], dep[0]):
+            continue
+        t, pol = ctx.dep_term(dep)
+        if allowed is not None and t is not None and allowed(t, pol):
+            continue
+        return False, dep
+    return True, None
+
+
+def _first_elem(f, stmt):
+    best = None
+    for d in f.descendants(stmt):
+        if d in f.pos:
+            r = f.region_of_block(f.pos[d][0])
+            if best is None or len(r) < len(best[1]):
+                best = (d, r)
+    return best[0] if best else None
+
+
+def rule_bulk_complete(m):
+    """F-BULK: bulk removals are complete and unconditional."""
+    res = RuleResult('F-BULK', 'bulk removals reach every affected entry on every path: removeVertexFromEdgeList removes the '
+                               'out-entries of the vertex and (directed family) calls the remove-all helper for (i, vertex) for '
+                               'every vertex i; removeSelfLoops / clearEdges / removeDuplicateEdges run their full-range loop '
+                               'unconditionally; the only early exit tolerated is `adjacencyList[vertex].empty()` in the '
+                               'undirected family, where the lists are symmetric')
+    for cls in GRAPH_CLASSES:
+        undirected = cls in UNDIRECTED_FAMILY
+        for f in m.by_tname.get(cls + '::removeVertexFromEdgeList', []):
+            ctx = Ctx(m, f)
+            v = ('var', f.params[0])
+            disp = f.display()
+
+            def sym_empty(t, pol):
+                # !A[vertex].empty()  (i.e. the early return is taken only when the own list is empty)
+                x = t
+                neg = False
+                while x[0] == 'un' and x[1] == '!':
+                    x = x[3]
+                    neg = not neg
+                if x[0] == 'mcall' and x[1] == 'std::list::empty' and x[2][0] in ('idx', 'mcall'):
+                    lt = x[2]
+                    idx = lt[2] if lt[0] == 'idx' else (lt[3][0] if lt[3] else None)
+                    return undirected and idx == v and (pol == neg)
+                return False
+            if undirected:
+                res.sites += 1
+                er = [e for e in ctx.ev.of_kind('A.eraseIt')]
+                bulk = [e for e in er if e.extra.get('form') == 'bulk'] or er
+                ok = bool(er)
+                why = 'no erase of list entries'
+                for e in er:
+                    from .rules_pair import _is_full_vertex_loop
+                    loops = _is_full_vertex_loop(ctx, e.node)
+                    if not loops:
+                        ok = False
+                        why = 'the erase is not inside a full-range loop over the vertices'
+                        continue
+                    fe = _first_elem(f, f.nodes[loops[0][0]].get('rangestmt', loops[0][0]))
+                    good, dep = _base_region_ok(ctx, fe if fe is not None else loops[0][0], sym_empty)
+                    if not good:
+                        ok = False
+                        why = 'the removal loop is skipped when `%s` is %s' % (f.expr_text(f.branch_atom(dep[0])), dep[1] == 0)
+                if ok:
+                    res.ok(dict(function=disp, form='bulk loops over all (i, *j), unconditional') if len(res.samples) < 6 else None, fn=disp)
+                else:
+                    res.fail(Finding('F-BULK', disp, 'removal of the incident edges', f.where(), why))
+                continue
+            # ---- directed family: (a) out-entries, (b) in-entries through a remove-all callee for every i
+            res.sites += 1
+            outs = [e for e in ctx.ev.of_kind('A.eraseIt', 'A.clear') if e.args[0] == v]
+            ok = bool(outs)
+            why = 'the out-entries of the vertex are not removed'
+            for e in outs:
+                loop = None
+                for a in f.ancestors(e.node):
+                    if f.nodes[a]['k'] in ('WhileStmt', 'ForStmt', 'CXXForRangeStmt'):
+                        loop = a
+                        break
+                anchor = loop if loop is not None else e.node
+                fe = anchor if anchor in f.pos else _first_elem(f, anchor)
+                cond_elem = f.nodes[loop].get('cond') if loop is not None else None
+                good, dep = _base_region_ok(ctx, cond_elem if cond_elem is not None and cond_elem >= 0 else fe)
+                if not good:
+                    ok = False
+                    why = 'the removal of the out-entries is skipped when `%s` is %s' % (
+                        f.expr_text(f.branch_atom(dep[0])), dep[1] == 0)
+            if ok:
+                res.ok(dict(function=disp, part='out-entries of the vertex', form='unconditional') if len(res.samples) < 10 else None, fn=disp)
+            else:
+                res.fail(Finding('F-BULK', disp, 'removal of the out-edges', f.where(), why))
+            res.sites += 1
+            ok = False
+            why = 'no full-range loop calling a remove-all helper for (i, vertex)'
+            from .rules_pair import _is_full_vertex_loop
+            for nid, g in m.callees(f):
+                n = f.nodes[nid]
+                if n['k'] != 'CXXMemberCallExpr' or g.is_const or ctx.tt.t(n.get('obj', -1)) != ('this',):
+                    continue
+                a = [ctx.tt.t(x) for x in n['args']]
+                if len(a) < 2 or a[1] != v:
+                    continue
+                loops = _is_full_vertex_loop(ctx, nid)
+                if not loops or a[0] != ('var', loops[-1][1]):
+                    continue
+                if not _removes_all(m, g):
+                    why = 'the helper %s called for (i, vertex) does not remove all copies and the label on every path' % g.name
+                    continue
+                ln = f.nodes[loops[-1][0]]
+                anchor = ln.get('cond', -1) if ln['k'] == 'ForStmt' else ln.get('rangestmt', -1)
+                fe = anchor if anchor in f.pos else _first_elem(f, anchor if anchor >= 0 else loops[-1][0])
+                good, dep = _base_region_ok(ctx, fe)
+                # inside the loop the call itself must be unconditional
+                extra = ctx.region(nid) - ctx.region(_first_elem(f, ln['body']) or nid)
+                if not good:
+                    why = 'the in-edge removal loop is skipped when `%s` is %s: a vertex with in-edges keeps them' % (
+                        f.expr_text(f.branch_atom(dep[0])), dep[1] == 0)
+                elif extra:
+                    why = 'the removal of (i, vertex) is conditional inside the loop'
+                else:
+                    ok = True
+            if ok:
+                res.ok(dict(function=disp, part='in-entries (i, vertex) for every i', form='unconditional full-range loop over a '
+                            'remove-all helper') if len(res.samples) < 14 else None, fn=disp)
+            else:
+                res.fail(Finding('F-BULK', disp, 'removal of the in-edges', f.where(), why))
+        # ---- removeSelfLoops / clearEdges / removeDuplicateEdges: the vertex loop is unconditional
+        for name in ('removeSelfLoops', 'clearEdges', 'removeDuplicateEdges'):
+            for f in m.by_tname.get(cls + '::' + name, []):
+                ctx = Ctx(m, f)
+                res.sites += 1
+                from .rules_pair import _is_full_vertex_loop
+                loops = [n for n in f.nodes if n['k'] in ('CXXForRangeStmt', 'ForStmt')]
+                full = []
+                for n in loops:
+                    inner = _first_elem(f, n['body'])
+                    if inner is None:
+                        continue
+                    fl = _is_full_vertex_loop(ctx, inner)
+                    if fl and fl[0][0] == n['i']:
+                        full.append(n)
+                delegates = [g for nid, g in m.callees(f) if g.name == name and g.record != cls and
+                             ctx.tt.t(f.nodes[nid].get('obj', -1)) == ('this',) and not ctx.region(nid)]
+                ok = False
+                why = 'no full-range loop over the vertices'
+                for n in full:
+                    anchor = n.get('cond', -1) if n['k'] == 'ForStmt' else n.get('rangestmt', -1)
+                    fe = anchor if anchor in f.pos else _first_elem(f, anchor if anchor >= 0 else n['i'])
+                    good, dep = _base_region_ok(ctx, fe)
+                    if good:
+                        ok = True
+                    else:
+                        why = 'the loop over the vertices is skipped when `%s` is %s' % (f.expr_text(f.branch_atom(dep[0])), dep[1] == 0)
+                if name == 'removeSelfLoops' and ok:
+                    # the loop body must call a remove-all callee for (i, i) unconditionally
+                    ok = False
+                    why = 'removeSelfLoops does not call a remove-all helper for (i, i) for every vertex'
+                    for nid, g in m.callees(f):
+                        n = f.nodes[nid]
+                        if n['k'] == 'CXXMemberCallExpr' and not g.is_const and len(n['args']) >= 2:
+                            a = [ctx.tt.t(x) for x in n['args']]
+                            fl = _is_full_vertex_loop(ctx, nid)
+                            if fl and a[0] == a[1] == ('var', fl[-1][1]) and _removes_all(m, g):
+                                inner0 = _first_elem(f, f.nodes[fl[-1][0]]['body'])
+                                if not (ctx.region(nid) - ctx.region(inner0 if inner0 is not None else nid)):
+                                    ok = True
+                if ok or delegates:
+                    res.ok(dict(function=f.display(), form='delegates to the base implementation' if delegates and not ok else
+                                'unconditional full-range loop') if len(res.samples) < 20 else None, fn=f.display())
+                else:
+                    res.fail(Finding('F-BULK', f.display(), name + ' loop', f.where(), why))
+    res.require_sites(40, 'bulk mutators')
+    return res
+
+
+# ------------------------------------------------------------------------------------------------
+def rule_setters(m):
+    """F-SETTER: setEdgeWeight / setEdgeMultiplicity decide between overwrite and creation by hasEdge of the pair."""
+    res = RuleResult('F-SETTER', 'setEdgeWeight / setEdgeMultiplicity overwrite the stored value exactly when hasEdge(x,y) of the '
+                                 'pair is true and create the edge exactly when it is false (multiplicity 0 removes); existence is '
+                                 'never inferred from the stored value (a weight may be 0)')
+    for tn in (DWG + '::setEdgeWeight', UWG + '::setEdgeWeight', DMG + '::setEdgeMultiplicity', UMG + '::setEdgeMultiplicity'):
+        for f in m.by_tname.get(tn, []):
+            res.sites += 1
+            ctx = Ctx(m, f)
+            disp = f.display()
+            x, y = ('var', f.params[0]), ('var', f.params[1])
+            val = ('var', f.params[2])
+            multi = 'Multiplicity' in tn
+            two, three = _hasedge_terms(ctx, x, y)
+            pe = PairEngine.__new__(PairEngine)
+            pe.m = m
+
+            class _W:
+                def __init__(self, node):
+                    self.node = node
+            overwrites = [_W(w['node']) for w in PairEngine.label_sets(pe, ctx)]
+            creates = []
+            for nid, g in m.callees(f):
+                n = f.nodes[nid]
+                if n['k'] == 'CXXMemberCallExpr' and g.name in ('addEdge', 'addMultiedge') and ctx.tt.t(n.get('obj', -1)) == ('this',):
+                    creates.append(nid)
+            if len(overwrites) != 1 or len(creates) != 1:
+                res.broken('F-SETTER: %s is not in the shape overwrite / create (found %d / %d)' % (disp, len(overwrites), len(creates)))
+                continue
+            # a branch that compares a stored label with 0 to decide existence
+            zero_test = None
+            for dep in ctx.region(overwrites[0].node) | ctx.region(creates[0]):
+                t, pol = ctx.dep_term(dep)
+                if t is None:
+                    continue
+                for st in subterms(resolve_locals(ctx, t, {})):
+                    if st[0] == 'bin' and st[1] in ('!=', '==', '>', '<') and strip_cast(st[3]) in (('int', 0), ('float', '0.000000')):
+                        if ctx.label_read(strip_cast(st[2])) is not None:
+                            zero_test = f.branch_atom(dep[0])
+            if zero_test is not None and not multi:
+                res.fail(Finding('F-SETTER', disp, 'existence inferred from the stored weight', f.nloc(zero_test),
+                                 'the branch between overwriting and creating the edge tests the stored weight against 0 (`%s`): an '
+                                 'existing edge of weight 0 is treated as missing, so its weight cannot be changed'
+                                 % f.expr_text(zero_test)[:80]))
+                continue
+            if not two:
+                res.broken('F-SETTER: %s does not test hasEdge(%s,%s)' % (disp, show(x, f.unit), show(y, f.unit)))
+                continue
+            bad = None
+            for has, zero in itertools.product((True, False), (True, False) if multi else (False,)):
+                env = {x: 0, y: 1}
+                for h in two:
+                    env[h] = has
+                if multi:
+                    env[val] = 0 if zero else 3
+                ow = path_eval(ctx, overwrites[0].node, env)
+                cr = path_eval(ctx, creates[0], env)
+                if ow is None or cr is None:
+                    bad = 'undecidable'
+                    break
+                want_ow = has and not zero
+                want_cr = (not has) and not zero
+                if ow != want_ow or cr != want_cr:
+                    bad = 'edge %s%s: overwrite %s, create %s' % ('present' if has else 'absent', ', value 0' if zero else '',
+                                                                'executed' if ow else 'skipped', 'executed' if cr else 'skipped')
+                    break
+            if bad == 'undecidable':
+                res.broken('F-SETTER: the branch structure of %s cannot be evaluated' % disp)
+            elif bad:
+                res.fail(Finding('F-SETTER', disp, 'overwrite / create decision', f.where(),
+                                 'the setter does not overwrite exactly when the edge exists and create exactly when it does not: ' + bad))
+            else:
+                res.ok(dict(function=disp, decision='hasEdge(%s,%s)' % (show(x, f.unit), show(y, f.unit))), fn=disp)
+    res.require_sites(4, 'setters')
+    return res
+
+
+# ------------------------------------------------------------------------------------------------
+def rule_label_subscripts(m):
+    """F-LREF: operator[] on the label store inserts a default entry when the key is absent."""
+    res = RuleResult('F-LREF', 'every subscript edgeLabels[k] that is not the target of a plain assignment sits where the '
+                               'existence of the edge k is established (hasEdge true, a matching entry found in the adjacency '
+                               'list, or count(k) != 0): operator[] would otherwise insert a default-constructed label for a '
+                               'missing edge')
+    for f in m.fns:
+        if f.record not in GRAPH_CLASSES or f.is_lambda:
+            continue
+        ctx = Ctx(m, f)
+        if not ctx.labelled:
+            continue
+        sets = {e.extra.get('lhs') for e in ctx.ev.events}
+        for e in ctx.ev.of_kind('L.ref'):
+            n = f.nodes[e.node]
+            # plain assignment target?  parent chain: operator[] -> (casts) -> '=' with it as lhs
+            par = f.parent.get(e.node)
+            hops = 0
+            plain = False
+            while par is not None and hops < 3:
+                pn = f.nodes[par]
+                if pn['k'] == 'BinaryOperator' and pn.get('op') == '=' and f.strip(pn['c'][0]) == e.node:
+                    plain = True
+                if pn['k'] == 'CXXOperatorCallExpr' and 'callee' in pn and f.unit.decl(pn['callee']).get('op') == '=' and \
+                        pn.get('args') and f.strip(pn['args'][0]) == e.node:
+                    plain = True
+                if pn['k'] in ('ImplicitCastExpr', 'ParenExpr', 'MaterializeTemporaryExpr'):
+                    par = f.parent.get(par)
+                    hops += 1
+                    continue
+                break
+            if plain:
+                continue
+            res.sites += 1
+            k = ctx.key_of(e.args[0], e.node)
+            ok = False
+            if k is not None:
+                pos = f.cfg_pos(e.node)
+                from .rules_wl import implied
+                for (bb, ix) in f.dominating_edges(pos[0]) if pos else []:
+                    a = f.branch_atom(bb)
+                    if a is None:
+                        continue
+                    for (t, pol) in implied(ctx.tt.t(a), ix == 0):
+                        t = resolve_locals(ctx, t, {})
+                        while t[0] in ('conv', 'cast'):
+                            t = t[2]
+                        neg = False
+                        while t[0] == 'un' and t[1] == '!':
+                            t = t[3]
+                            neg = not neg
+                        truth = (pol != neg)
+                        if t[0] == 'mcall' and t[1].endswith('::hasEdge') and len(t[3]) == 2 and truth:
+                            if {t[3][0], t[3][1]} == {k.a, k.b}:
+                                ok = True
+                        if t[0] == 'bin' and t[1] in ('==', '!=') and ((t[1] == '==') == truth):
+                            # *j == b  while iterating the list of a
+                            for l, r in ((t[2], t[3]), (t[3], t[2])):
+                                if l[0] == 'deref' and r in (k.a, k.b):
+                                    ok = True
+                        if t[0] == 'bin' and t[1] in ('!=', '>') and strip_cast(t[3]) == ('int', 0) and truth and \
+                                t[2][0] == 'mcall' and t[2][1].endswith('::count'):
+                            ok = True
+            if ok:
+                res.ok(dict(function=f.display(), subscript=f.expr_text(e.node)[:60], at=f.nloc(e.node), evidence='edge exists')
+                       if len(res.samples) < 10 else None, fn=f.display())
+            else:
+                res.fail(Finding('F-LREF', f.display(), 'label-store subscript without existence evidence', f.nloc(e.node),
+                                 '`%s` is evaluated on a path where the edge is not known to exist: for a missing edge operator[] '
+                                 'inserts a default label entry, which getEdgeLabel / getEdgeMultiplicity / operator== then see'
+                                 % f.expr_text(e.node)[:60]))
+    res.require_sites(8, 'label-store subscripts')
     return res
